@@ -32,11 +32,43 @@ META = {
 }
 
 
+def spec_matrix_bincount2d(a, b, n_a, n_b):
+    """specification of the kernel (what E2 proves about libinfo.matrix_bincount2d): exact joint counts, uint32"""
+    import sys
+    sym = isinstance(a, SArr) or isinstance(b, SArr)
+    n_a, n_b = int(n_a), int(n_b)
+    if not sym:
+        a, b = np.asarray(a), np.asarray(b)
+        assert a.shape[0] == b.shape[0]
+        assert a.max() < n_a and b.max() < n_b and a.min() >= 0 and b.min() >= 0
+        jc = np.zeros((a.shape[1], b.shape[1], n_a, n_b), dtype=np.uint32)
+        for x in range(a.shape[1]):
+            for y in range(b.shape[1]):
+                np.add.at(jc[x, y], (a[:, x], b[:, y]), 1)
+        return jc
+    ra_, rb_ = _raw(funcs._as_sarr(a)), _raw(funcs._as_sarr(b))
+    T = ra_.shape[0]
+    o = np.empty((ra_.shape[1], rb_.shape[1], n_a, n_b), dtype=object)
+    for x in range(ra_.shape[1]):
+        for y in range(rb_.shape[1]):
+            for i in range(n_a):
+                for j in range(n_b):
+                    acc = 0
+                    for t in range(T):
+                        acc = acc + ite(sand(ra_[t, x] == i, rb_[t, y] == j), 1, 0)
+                    o[x, y, i, j] = acc
+    r = o.view(SArr)
+    r.ldtype = np.dtype(np.uint32)
+    return r
+
+
 def preload():
+    import sys
     loader.load('enspara.msm.transition_matrices')
     loader.load('enspara.msm.builders')
     loader.load('enspara.info_theory.mutual_info')
     loader.load('enspara.info_theory.entropy')
+    sys.modules['enspara.info_theory.libinfo'].matrix_bincount2d = spec_matrix_bincount2d
 
 
 def feq(a, b):
@@ -393,6 +425,51 @@ def mi_garbage_job(empty_pair):
     return path
 
 
+def pooled_job(T, ntraj=2, S=2, nsym=None):
+    """mi_matrix over several trajectories computes MI from the POOLED counts (and no count table silently wraps)"""
+    mi_mod = loader.load('enspara.info_theory.mutual_info')
+
+    def path(ctx):
+        ctx.resolve_masks = True
+        ns = T if nsym is None else nsym
+        trajs = [[core.fresh_int('s', 0, S - 1) if t < ns else 0 for t in range(T)] for _ in range(ntraj)]
+        Xs = [funcs.np_array([[v] for v in tr], dtype=np.int32) for tr in trajs]
+        exc = None
+        try:
+            mi = mi_mod.mi_matrix(Xs, Xs, [S], [S], normalize=False)
+            pooled = None
+            for X in Xs:
+                j = spec_matrix_bincount2d(X, X, S, S).astype(np.int64)
+                pooled = j if pooled is None else pooled + j
+            ref = mi_mod.mutual_information(pooled)
+        except Exception as e:
+            exc = e
+
+        def witness(model):
+            tv = [[int(ev(model, v)) if isinstance(v, SVal) else int(v) for v in tr] for tr in trajs]
+            out = {'inputs': {'trajectories': [''.join(map(str, tr)) for tr in tv]}, 'skip_compare': True, 'out': None}
+            X2 = [np.array(tr, dtype=np.int32).reshape(-1, 1) for tr in tv]
+            with core.concrete_mode():
+                try:
+                    m2 = mi_mod.mi_matrix(X2, X2, [S], [S], normalize=False)
+                    pj = sum(spec_matrix_bincount2d(X, X, S, S).astype(np.int64) for X in X2)
+                    r2 = mi_mod.mutual_information(pj)
+                except Exception as e:
+                    out.update(exception=repr(e), violated=['raises ' + type(e).__name__], signature='pooled:exception:' + type(e).__name__)
+                    return out
+            out['out'] = {'mi_matrix': m2.tolist(), 'mi_of_pooled_counts': r2.tolist()}
+            out['violated'] = [] if np.allclose(m2, r2, rtol=1e-9, atol=1e-12) else ['multi-trajectory MI is not the MI of the pooled counts']
+            out['signature'] = 'pooled:mi-differs-from-pooled-counts'
+            return out
+        if exc is not None:
+            return PathOut([('no-exception', False)], {}, witness, exc=type(exc).__name__,
+                           desc='raises %s: %s' % (type(exc).__name__, str(exc)[:100]))
+        obs = [('multi-trajectory-MI-equals-MI-of-pooled-counts',
+                conj([feq(x, y) for x, y in zip(cells(mi), cells(ref))]))]
+        return PathOut(obs, {}, witness, desc='pooled counts: %d trajectories x %d frames' % (ntraj, T))
+    return path
+
+
 def kl_job(n):
     en = loader.load('enspara.info_theory.entropy')
 
@@ -451,6 +528,8 @@ def jobs(tier):
         add('norm_job', 'normalization[%s,%s]' % (nx, ny), nx=nx, ny=ny)
     for n in (2, 3):
         add('kl_job', 'kl-self[n=%d]' % n, n=n)
+    add('pooled_job', 'pooled-counts[2 trajectories x 3 frames]', T=3)
+    add('pooled_job', 'pooled-counts[2 x 130 frames (2 symbolic each): count tables must not wrap in a narrow dtype]', T=130, nsym=2)
     from harness import kernels
     J += kernels.jobs_for('C18', tier)
     return J
